@@ -53,6 +53,9 @@ def quadStep (tol : Float) (p0 p1 p2 : Pt Float) : Option Float :=
     let denom := hypotGo D.x D.y
     let s2nom := GenF.Point.PerpDot D (GenF.Point.Sub p2 p0)
     let t := 2.0 * Float.sqrt (tol * Float.abs (denom / s2nom))
+    -- do not step past the point where the curve has turned by 90 degrees from the start tangent
+    let turn := GenF.Point.Dot D (GenF.Point.Sub p2 p1)
+    let t := if turn < 0.0 then goMin t (GenF.Point.Dot D D / (GenF.Point.Dot D D - turn)) else t
     if t >= 1.0 then none else some t
 
 def quadSplitR (p0 p1 p2 : Pt Float) (t : Float) : Pt Float × Pt Float × Pt Float :=
@@ -145,10 +148,10 @@ def inflectionRange (c : Cub Float) (t tol : Float) : Option (Float × Float) :=
     let nr := GenF.Point.Sub c.p1 c.p0
     let ns := GenF.Point.Sub c.p3 c.p0
     let nr := if GenF.Equal nr.x 0.0 && GenF.Equal nr.y 0.0 then GenF.Point.Sub c.p2 c.p0 else nr
-    if GenF.Equal nr.x 0.0 && GenF.Equal nr.y 0.0 then some (0.0, 1.0)
+    if GenF.Equal nr.x 0.0 && GenF.Equal nr.y 0.0 then some (t, 1.0)
     else
       let s3 := Float.abs (ns.x * nr.y - ns.y * nr.x) / hypotGo nr.x nr.y
-      if GenF.Equal s3 0.0 then some (0.0, 1.0)
+      if GenF.Equal s3 0.0 then some (t, 1.0)
       else
         let tf := Float.cbrt (tol / s3)
         some (t - tf * (1.0 - t), t + tf * (1.0 - t))
@@ -181,12 +184,17 @@ def flattenCubic (c : Cub Float) (tol : Float) : Option (List (Pt Float)) := do
   if done then return rev.reverse
   let rev ← if 0.0 < t2min then
       if t2min < t1max then
+        if 1.0 <= t1max then
+          -- t1 range extends beyond the end of the curve: approximate the rest linearly
+          return (addLine rev c true).reverse
         pure (addLine rev (cubSplitR c t1max) false)
       else
         let q := cubSplitR c t1max
         let t2minq := (t2min - t1max) / (1.0 - t1max)
         smooth rev (cubSplitL q t2minq) tol
     else pure rev
+  -- t2 range ends inside t1 range: continue after the t1 range
+  let t2max := if t2max < t1max then t1max else t2max
   if t2max < 1.0 then
     let q := cubSplitR c t2max
     let rev := addLine rev q false
